@@ -846,7 +846,7 @@ Proof.
   split; [unfold Arc_valid; lra |]. rewrite Arc_eq by lra. unfold Arc_shape.
   destruct (Rlt_dec 5 0); [lra |]. destruct (Rlt_dec 4 0); [lra |]. destruct (Rle_dec 4 5); [| lra].
   unfold Arc_curve. replace ((0 - 5)² - (4 - 0)²) with (3 * 3) by (unfold Rsqr; ring).
-  rewrite sqrt_square by lra. rewrite Rabs_left by lra. lra.
+  rewrite sqrt_square by lra. rewrite Rabs_left by lra. replace (- (0 - 5)) with 5 by ring. lra.
 Qed.
 Lemma SemiEllipse_ex : SemiEllipse_valid 0 10 (1 / 2) /\ SemiEllipse_membership 0 10 (1 / 2) 2 = 2 / 5.
 Proof.
@@ -915,7 +915,7 @@ Lemma SigmoidDifference_ex : SigmoidDifference_valid 0 1 1 1 (1 / 2) /\
 Proof.
   split; [unfold SigmoidDifference_valid; lra |].
   assert (Hb : Sigmoid_shape 1 1 0 = 1 / (1 + exp 1)).
-  { unfold Sigmoid_shape. replace (- 1 * (0 - 1)) with 1 by ring. reflexivity. }
+  { unfold Sigmoid_shape. replace (- (1) * (0 - 1)) with 1 by ring. reflexivity. }
   assert (Hlt : Sigmoid_shape 1 1 0 < Sigmoid_shape 0 1 0).
   { rewrite (Sigmoid_shape_at_inflection 0 1). rewrite <- (Sigmoid_shape_at_inflection 1 1).
     apply Sigmoid_shape_strict_inc; lra. }
@@ -932,4 +932,26 @@ Lemma Spike_ex_negative_width : Spike_valid 0 (-10) (1 / 2) /\ Spike_membership 
 Proof.
   split; [unfold Spike_valid; lra |]. rewrite Spike_eq. unfold Spike_shape.
   replace (10 / -10 * (1 - 0)) with (-1) by lra. rewrite Rabs_left by lra. rewrite Ropp_involutive. reflexivity.
+Qed.
+
+(* ================================================================ spelled-out variants used by Properties/C03b.v *)
+Lemma Arc_spec_between (s e h x : R) : Arc_valid s e h -> Rmin s e <= x <= Rmax s e ->
+  Arc_membership s e h x = h * (sqrt ((e - s)² - (x - e)²) / Rabs (e - s)).
+Proof.
+  intros [Hse _] Hx. rewrite Arc_eq by exact Hse. f_equal.
+  unfold Rmin, Rmax in Hx. unfold Arc_shape, Arc_curve.
+  destruct (Rle_dec s e); splitdecTB; first [reflexivity | exfalso; lra].
+Qed.
+Lemma Bell_spec_doc (c w s h x : R) : Bell_valid c w s h -> Bell_dom c s x -> 0 < w ->
+  Bell_membership c w s h x = h * (1 / (1 + Rpow (Rabs (x - c) / w) (2 * s))).
+Proof. intros _ _ Hw. rewrite Bell_eq, (Bell_shape_doc_eq c w s x Hw). reflexivity. Qed.
+Lemma Cosine_spec_inside (c w h x : R) : Cosine_valid c w h -> c - w / 2 <= x <= c + w / 2 ->
+  Cosine_membership c w h x = h * (1 / 2 * (1 + cos (2 / w * PI * (x - c)))).
+Proof. intros _ Hx. rewrite Cosine_eq, Cosine_shape_inside by exact Hx. reflexivity. Qed.
+Lemma SigmoidDifference_spec_doc_usual (l k rt h x : R) : SigmoidDifference_valid l k k rt h ->
+  0 <= k -> l <= rt ->
+  SigmoidDifference_membership l k k rt h x =
+  h * (1 / (1 + exp (- k * (x - l))) - 1 / (1 + exp (- k * (x - rt)))).
+Proof.
+  intros _ Hk Hlr. rewrite SigmoidDifference_eq, SigmoidDifference_doc_agrees_usual by assumption. reflexivity.
 Qed.
